@@ -52,6 +52,8 @@ def structurally_nonzero_state(x, kind):
 
 def path(eng, acc, task):
     shims.reset_logs()
+    from harness import c12
+    c12.RBI_LOG.clear()
     op = task['op']
     fails = []
     rec = None
@@ -74,8 +76,9 @@ def path(eng, acc, task):
         import traceback
         tb = traceback.extract_tb(e.__traceback__)[-1]
         from harness import c12
-        if op in ('compress', 'tdvp', 'dmrg') and any(s[0] == 'svd' for s in shims.STUB_LOG) and isinstance(e, (AssertionError, IndexError, ValueError)):
-            # an SVD truncation that keeps nothing (norm(s) == 0) leaves a bond of dimension 0: zero state, outside the property
+        if op in ('compress', 'tdvp', 'dmrg') and isinstance(e, (AssertionError, IndexError, ValueError)) and \
+                any(c12.zero_path(eng, given) for given, idx in c12.RBI_LOG if given):
+            # the truncation routine took its norm(s) == 0 branch: zero state (bond of dimension 0), outside the property
             acc.inc('zero_state_paths')
             return
         op_candidate(eng, acc, task, f'op:{op}:raises:{type(e).__name__}@{tb.name}', repr(e), 'C02')
